@@ -205,3 +205,13 @@ package rdb
 // in an earlier generation of the database, is visible through it.
 //@ func NewContext
 //@ ensures[fresh] result != nil && fresh(result) && fresh(result.cache)
+
+// get (C02/C04): an exact lookup is answered from the context cache only by an entry that was found under
+// exactly this key — an entry left by a closest-key search for the same probe names a different (smaller) key
+// and carries that key's records.
+//@ func RDB.get
+//@ flag skip frame
+//@ requires ctx != nil && rdb != nil
+//@ ghostret hit bool = ok
+//@ ghostret ek slice = cachedEntry.key
+//@ ensures[exact] err == nil && hit ==> seqeq(ek, key)
